@@ -3,6 +3,7 @@
   Theorems about the reference semantics CbRef: arithmetic laws, output discipline, loop rules.
 -/
 import CbProofs.RefInv
+import CbProofs.RefFuel
 namespace CbProps.C01
 open CbModel.Ref
 
@@ -125,5 +126,18 @@ theorem for_as_init_then_loop (p : Prog) (fuel : Nat) (i : Stmt) (c : Expr) (u :
 example : evalBin .div (-7) 2 = .ok (-3) ∧ evalBin .mod (-7) 2 = .ok (-1) ∧ evalBin .mod 7 (-2) = .ok 1 ∧
     evalBin .shr (-7) 1 = .ok (-4) := by
   refine ⟨?_, ?_, ?_, ?_⟩ <;> simp [evalBin, checkI64, inI64] <;> decide
+
+/-! ## the meaning of a program does not depend on the fuel given to the reference semantics -/
+
+/-- **Fuel independence.**  Once a run of the reference semantics ends by itself (any outcome except "out of
+    fuel"), every larger amount of fuel gives exactly the same outcome and the same output: the "documented
+    semantics" of a terminating program is one well-defined value, not an artefact of the driver's fuel -/
+theorem meaning_independent_of_fuel (p : Prog) (n m : Nat) (h : n ≤ m) (hn : (runProg p n).1 ≠ .oof) :
+    runProg p m = runProg p n :=
+  CbProofs.RefFuel.runProg_fuel_mono p n m h hn
+
+theorem two_terminating_runs_agree (p : Prog) (n m : Nat) (hn : (runProg p n).1 ≠ .oof) (hm : (runProg p m).1 ≠ .oof) :
+    runProg p n = runProg p m :=
+  CbProofs.RefFuel.runProg_deterministic_in_fuel p n m hn hm
 
 end CbProps.C01
